@@ -46,7 +46,7 @@ func init() {
 		Exhaustive:  func(t core.Tier) bool { return t == core.Thorough },
 		Plan: func(tier core.Tier, seed int64) int {
 			if tier == core.Thorough {
-				return c05SetCases + 12000
+				return c05SetCases + 60000
 			}
 			return c05SetCases + 480
 		},
